@@ -266,3 +266,31 @@ Proof.
   - apply bd_run_payloads; [exact bd_wf_init|].
     apply Forall_forall. intros i Hi. apply in_map_iff in Hi as [w [<- _]]. apply bd_in_of_payload.
 Qed.
+
+(* the environment assumption as a predicate on (model state, input word), for the lock-step tie:
+   while the model reports strobes (the cycle after a packet ended) no byte is presented *)
+Definition phase_of (f : bd_fsm) : phase :=
+  match f with WAIT_FOR_FIRST_BYTE => Idle | RECEIVE_AND_TRANSMIT => InPacket | OUTPUT_STROBES => JustEnded end.
+
+Lemma bd_env_ok : forall ws s, env_from (phase_of (fsm s)) (map bd_in_of ws) = true ->
+  env_ok bd_state bd_mstep bd_menv s ws = true.
+Proof.
+  induction ws as [|w t IH]; intros s H; [reflexivity|].
+  cbn [map env_from] in H. cbn [env_ok bd_mstep fst]. unfold bd_menv at 1.
+  destruct s as [f o b isf bc bi]. cbn [fsm] in *. destruct f; cbn [phase_of] in H.
+  - cbn [andb]. apply IH. unfold bd_next. cbn [fsm].
+    destruct (i_valid (bd_in_of w) && i_next (bd_in_of w)); cbn [fsm phase_of]; exact H.
+  - cbn [andb]. apply IH. unfold bd_next. cbn [fsm].
+    destruct (negb (i_valid (bd_in_of w))); [|destruct (i_next (bd_in_of w))]; cbn [fsm phase_of]; exact H.
+  - apply andb_true_iff in H as [H1 H2]. rewrite H1. cbn [andb]. apply IH. exact H2.
+Qed.
+
+Lemma bd_env_flush : forall ins ph, env_from ph ins = true -> env_from ph (ins ++ flush) = true.
+Proof.
+  induction ins as [|i t IH]; intros ph H.
+  - destruct ph; reflexivity.
+  - cbn [app env_from] in *. destruct ph.
+    + apply IH. exact H.
+    + apply IH. exact H.
+    + apply andb_true_iff in H as [H1 H2]. rewrite H1. cbn [andb]. apply IH. exact H2.
+Qed.
